@@ -166,11 +166,20 @@ def make_input(rng, c):
     return x.astype(c["dtype"])
 
 
+ARG_MUTATED = []      # (case, what) when a call rewrote a list the caller passed
+
+
 def call_impl(sp, c, x):
     f = sp.ifft if c["inverse"] else sp.fft
-    return f(x, oshape=None if c["osh"] is None else tuple(c["osh"]),
-             axes=None if c["axes"] is None else tuple(c["axes"]),
-             center=c["center"], norm="ortho" if c["ortho"] else None)
+    # axes / oshape are handed over as tuples or (every other call) as LISTS the caller keeps: they must come back unchanged
+    as_list = (len(c["ish"]) + int(c["center"]) + int(c["inverse"])) % 2 == 0
+    conv = list if as_list else tuple
+    osh = None if c["osh"] is None else conv(c["osh"])
+    axes = None if c["axes"] is None else conv(c["axes"])
+    out = f(x, oshape=osh, axes=axes, center=c["center"], norm="ortho" if c["ortho"] else None)
+    if as_list and ((axes is not None and list(axes) != list(c["axes"])) or (osh is not None and list(osh) != list(c["osh"]))):
+        ARG_MUTATED.append((dict(c), "axes %r -> %r, oshape %r -> %r" % (c["axes"], axes, c["osh"], osh)))
+    return out
 
 
 def tw_table(lengths):
@@ -290,6 +299,13 @@ def run(ctx):
             shapes.append([o + rng.randint(0, 2) for o in osh])
         for ish in shapes:
             cases.append(dict(base, ish=ish))
+    # large arrays (>= 65536 elements) with even lengths n whose n/2 is odd or even: any size-dependent code path is judged by the
+    # closed form too (numpy reference only; not sent through Coq)
+    big_cases = []
+    for shape in ([258, 258], [66, 1026], [130, 514], [256, 256], [2, 33000]):
+        for inv in (False, True):
+            big_cases.append(dict(inverse=inv, center=True, ortho=bool(len(big_cases) % 2), ish=shape, osh=None,
+                                  axes=None if len(big_cases) % 3 else [-1, -2], dtype="complex128"))
     n = max(ctx.n(360, 6000), len(cases) + 100)
     while len(cases) < n:
         cases.append(gen_case(rng, maxlen, maxsize))
@@ -328,6 +344,20 @@ def run(ctx):
                 e = relerr(y, yv) if yv.shape == y.shape else 1.0
                 if not e <= 10 * tol_of(c["dtype"]):
                     oracle_bad.append((d, ("layout:" + tag, y, yv, e)))
+    for c in big_cases[:ctx.n(6, 10)]:
+        r_ = np.random.RandomState(len(c["ish"]) + c["ish"][0])
+        xb = r_.randn(*c["ish"]) + 1j * r_.randn(*c["ish"])
+        ax = tuple(range(xb.ndim)) if c["axes"] is None else tuple(c["axes"])
+        nf = np.fft.ifftn if c["inverse"] else np.fft.fftn
+        refb = np.fft.fftshift(nf(np.fft.ifftshift(xb, axes=ax), axes=ax, norm="ortho" if c["ortho"] else None), axes=ax)
+        yb = np.asarray(call_impl(sp, c, xb))
+        ctx.count("large:%s" % ("ifft" if c["inverse"] else "fft"), key=json.dumps(c), nontrivial=True)
+        e = relerr(refb, yb) if yb.shape == refb.shape else 1.0
+        if not e <= 1e-9:
+            oracle_bad.append((dict(case=c, x=xb[:2, :2], y=yb[:2, :2], expr=None), ("large-array", "centred DFT of a %s array" % (c["ish"],), "relative error %.3g" % e, e)))
+    for cm, what in ARG_MUTATED[:3]:
+        oracle_bad.append((dict(case=cm, x=np.zeros(1), y=np.zeros(1), expr=None), ("argument-rewritten", "axes / oshape lists unchanged by the call", what, 1.0)))
+    del ARG_MUTATED[:]
     # linop FFT/IFFT: adjoint dot test and normal operator, on the shapes/axes of a sub-sample
     nl = 0
     for d in done:
